@@ -368,9 +368,11 @@ def numeric_leaf_docs(ctx, corr, rng, files):
     _tests, callers = _tr.parse_pure_data(ctx.repo)
     optional_leaves = {n[len("optional_"):].replace("_", "-") for n, k, _c in callers if k == "data" and n.startswith("optional_")}
     ung = _tr.unguarded_extractions(ctx.repo)
-    unguarded_parents = {"point"} if ung and all(n.startswith("g3_point_") for n in ung) else set()
-    if ung and not unguarded_parents:
-        corr.inconclusive.append("DataParser: handlers extracting numbers without pure_data outside <point>: " + ", ".join(ung)[:200])
+    # the recorded laxness is that of <point> only; a handler elsewhere that extracts without pure_data is judged strictly
+    unguarded_parents = {"point"} if any(n.startswith("g3_point_") for n in ung) else set()
+    if any(not n.startswith("g3_point_") for n in ung):
+        corr.inconclusive.append("DataParser: handlers extracting numbers without pure_data outside <point>: " +
+                                 ", ".join(n for n in ung if not n.startswith("g3_point_"))[:200])
     for f in files:
         b = Path(f).read_bytes()
         nm = os.path.basename(f)
